@@ -901,7 +901,7 @@ class MonteCarloSampler_jit(object):
                         self.jump_Q[n] += self.interactvalue[m]
             else:
                 # forbidden jump:
-                self.jump_Q[n] = np.Inf
+                self.jump_Q[n] = np.inf
         return self.jump_ij, self.jump_Q, self.jump_dx
 
     def deltaE_trial(self, occsite, unoccsite):
